@@ -266,7 +266,17 @@ def drive(ctx, mon, tier, only_case=None):
         if case == 0:
             # every history of up to 2 (quick) / 3 (thorough) apply/remove operations, each call judged (documented
             # error or success; consistency self-check and the health probe on every value produced)
-            trie_case(ctx, mon, tier, 2, 3, judged_walk=True)
+            def pads(v, p):
+                v.rjust(4)
+                v.center(6, '*')
+                w = v.rjust(5, inplace=True)
+                w.rjust(7, '.', inplace=True)
+                with mon.quiet():
+                    z = L.AnsiString(v)
+                z.zfill(5, inplace=True)
+                z.center(8, inplace=True)
+                format(z, '>10')
+            trie_case(ctx, mon, tier, 2, 3, judged_walk=True, visit=pads, visit_depth=2)
             return
         profile = rng.choice(['wf', 'mixed', 'hostile', 'hostile'])
         esc = rng.random() < 0.3
